@@ -820,8 +820,11 @@ class EnforcedForest:
                     str(hash(k)) + v.get("geometry", "")
                     for k, v in self.edge_data.items()
                 )
+                # separators keep apart what would otherwise run together:
+                # nodes `a`, `b` and a node `ab`, or an empty node name
                 + "".join(
-                    str(k) + v.get("geometry", "") for k, v in self.node_data.items()
+                    str(k) + "\x1f" + v.get("geometry", "") + "\x1e"
+                    for k, v in self.node_data.items()
                 )
             ).encode("utf-8")
             + b"".join(
